@@ -179,7 +179,7 @@ def design(rep, quick):
     # the loop the property demands: never returns a non fixed point, independent of history
     r = core.tlc_mc("MC_ResolveLoop", MC_CFG.format(cap="FALSE", stale="FALSE", mems="99, 0, 1, 2, 3", idxs="0, 1",
                                                     invs="FixedPoint HistoryIndependent", **base),
-                    f"{rep.pid}_design", workers=4, timeout=900)
+                    f"{rep.pid}_design", workers=4, timeout=900, coverage=True)
     rep.add_tlc(r)
     rep.extra["design_states"] = r.distinct
     # the pinned code's deviations, shown on the model
